@@ -87,6 +87,7 @@ def run(prog, rep, tier='quick'):
     rep.rule('nesting', 'stores inside the recursion carry no dependence on `order`')
     rep.rule('recurrence', 'rho0 = sum|x|^2/N (signature 1/N, degree 2); rho <- (1-|kp|^2)*rho; kp stored in a[k] and ref[k]')
     rep.rule('guard', 'after the update of rho: rho <= 0 -> raise before the next iteration')
+    rep.rule('order-update', 'no store a[i2] = f(.., a[i1], ..) follows a store to a[i1] in the same iteration (two-ended step-up)')
     rep.rule('integer-data', 'no product / integer power of the raw samples is formed while they may still have an integer dtype')
     rep.rule('scaling', 'a, ref: s=0; rho: s=2 under every criterion')
     f = prog.func('burg', 'arburg')
@@ -241,6 +242,15 @@ def run(prog, rep, tier='quick'):
                                   'order: the order-q reflection coefficients are not the first q of the order-p ones [%s]' % ctx, where)
             else:
                 rep.proved('nesting', f.qname, 'stores [%s]' % ctx, 'none depends on the order', where)
+    # the in-place Levinson step-up of the AR coefficients reads the previous order's values
+    from ..orderupdate import check as order_check
+    cnt_ou, bad_ou = order_check(f.node)
+    if bad_ou:
+        for s_, arr_, idx_ in bad_ou:
+            rep.violation('order-update', f.qname, normalise(s_)[:90], 'the right-hand side reads %s[%s] after it was overwritten earlier in '
+                          'the same iteration: the step-up needs the previous order\'s coefficient there' % (arr_, idx_), loc(f.mod, s_))
+    else:
+        rep.proved('order-update', f.qname, 'in-place stores', '%d array stores inside loops examined' % cnt_ou, where)
     # integer-typed records: squares / products of the samples must be formed in floating point
     v, itp = C.run_function(prog, 'burg', 'arburg', [C.data(False, phase=False), IntV(Aff.sym('Po'), frozenset(['order'])), Const(None)], {})
     ia = [e for e in itp.events if e[0] == 'int-arith' and (e[3] == f.qname or (e[3].startswith('burg.') and e[3] in itp.trace))]
